@@ -174,6 +174,11 @@ class _InlineMixin:
             return NotImplemented
         if len(segs) >= 2 and segs[-1] == "from" and len(args) == 1 and segs[-2] in ("Word", "u8", "u16", "u32", "u64", "usize", "i32", "i64", "u128"):
             return args[0]          # a lossless integer widening of a symbolic value
+        if len(segs) >= 2 and segs[-1] in ("new", "default", "with_capacity") and segs[-2] not in ("HashMap", "BTreeMap", "HashSet", "BTreeSet"):
+            from ..symeval import _type_alias
+            al_ = _type_alias(segs[-2])         # `type IdMap<L> = HashMap<..>;`
+            if al_ and lastseg(strip_generics(al_)) in ("HashMap", "BTreeMap", "HashSet", "BTreeSet"):
+                return ("map", {})
         if len(segs) >= 2 and segs[-2] in ("HashMap", "BTreeMap", "HashSet", "BTreeSet") and segs[-1] in ("new", "default", "with_capacity"):
             return ("map", {})
         if segs[-1] == "default" and not args and (len(segs) == 1 or segs[-2] == "Default"):
@@ -313,6 +318,20 @@ class _InlineMixin:
                 out[k] = ("str", "")
             elif "HashMap<" in t or "BTreeMap<" in t:
                 out[k] = ("map", {})
+            else:
+                # a type of the crate with a `Default` impl (derived or written out): its `default()` evaluated
+                meth, free, consts = _index(self.ctx)
+                tn = lastseg(strip_generics(t.lstrip("&")))
+                c = [x for x in meth.get((tn, "default"), []) if not [q for q in x["sig"]["params"]]]
+                if len(c) == 1 and self.ev is not None and self._depth < self.MAXDEPTH:
+                    saved = getattr(self, "self_ty", None)
+                    self.self_ty = tn
+                    try:
+                        r = self.inline(c[0], [])
+                    finally:
+                        self.self_ty = saved
+                    if r is not NotImplemented:
+                        out[k] = r
         return out
 
 
